@@ -61,9 +61,10 @@ struct GenOpts
    bool commonRepertoire;    // C08: only what every implementation can hold (no pointer/tag fields, no zero-length raw items, raw items only as B_RAW_TYPE)
    bool pythonSafe;          // C08: valid UTF-8 strings and names, no NaN inside Point/Rect
    bool allowBursts;         // fields of 17 / 300 items
+   bool allowNonFlattenable; // pointer and tag fields
    int  maxDepth;
    uint32 maxTopOps;
-   GenOpts() : commonRepertoire(false), pythonSafe(false), allowBursts(true), maxDepth(4), maxTopOps(28) {}
+   GenOpts() : commonRepertoire(false), pythonSafe(false), allowBursts(true), allowNonFlattenable(true), maxDepth(4), maxTopOps(28) {}
 };
 
 struct GenStats
@@ -228,7 +229,7 @@ private:
             else {if (r.IsError()) vf::Fail("Rename failed"); MField f = mod.f[fi]; f.name = to; if (ti >= 0) {mod.f[ti] = f; mod.f.erase(mod.f.begin()+fi);} else {mod.f.erase(mod.f.begin()+fi); mod.f.push_back(f);}}
          }
          break;
-         case 9: if ((depth <= 1)&&(_o.commonRepertoire == false)&&(_bs.u8()%4 == 0))
+         case 9: if ((depth <= 1)&&(_o.commonRepertoire == false)&&(_o.allowNonFlattenable)&&(_bs.u8()%4 == 0))
          {
             // non-flattenable fields: they exist in the Message, and are skipped by Flatten at every nesting level
             const bool isPtr = _bs.flip(); const char * nm = isPtr ? "ptr" : "tag";
